@@ -868,7 +868,7 @@ class Sym:
         if k in ("ref", "rawptr"):
             return self.place_expr(rv["p"], depth, stack)
         if k == "cast":
-            return ("cast", rv["to"], self.operand_expr(rv["a"], depth, stack))
+            return ("cast", rv["to"], self.operand_expr(rv["a"], depth, stack), rv["from"])
         if k == "bin":
             return ("bin", rv["op"], self.operand_expr(rv["a"], depth, stack), self.operand_expr(rv["b"], depth, stack))
         if k == "un":
